@@ -296,5 +296,15 @@ PREDICATES = {}
 
 def run(ctx):
     cases = generate(ctx.tier)
-    ctx.note(f"{sum(c['mode'] == 'symbolic' for c in cases)} symbolic cases, {sum(c['mode'] != 'symbolic' for c in cases)} simulations with Jacobian")
-    ctx.evaluate(cases, timeout=300)
+    sym = [c for c in cases if c["mode"] == "symbolic"]
+    sim = [c for c in cases if c["mode"] != "symbolic"]
+    ctx.note(f"{len(sym)} symbolic cases, {len(sim)} simulations with Jacobian")
+    ctx.evaluate(sym, timeout=300)
+    if ctx.failures:
+        # A wrong Jacobian makes the implicit solvers crawl (each run can take minutes): the symbolic family
+        # has already decided the property, so the simulations are skipped and the run is reported as partial.
+        ctx.exhaustive = False
+        ctx.note("symbolic family found failures: Jacobian simulations skipped")
+        return
+    # a healthy run takes < 1 s; a run that needs more than 60 s is reported as not terminating
+    ctx.evaluate(sim, timeout=60)
